@@ -109,7 +109,7 @@ class Impl:
         from AEIC.BADA.aircraft_parameters import Bada3AircraftParameters
         from AEIC.BADA.model import Bada3FuelBurnModel
         from AEIC.config import config
-        from AEIC.emissions.ei import hcco, nox, pmnvol, sox
+        from AEIC.emissions.ei import hcco, nox, pmnvol, pmvol, sox
         from AEIC.emissions import utils as eutils
         from AEIC.performance.edb import EDBEntry
         from AEIC.performance.types import ThrustModeValues
@@ -424,7 +424,15 @@ def _walk(obj, path: list[str]):
 
 
 def _f(v) -> float:
-    return float(np.asarray(v).reshape(-1)[0]) if np.asarray(v).size == 1 else float(v)
+    a = np.asarray(v)
+    if a.size == 1 and a.dtype.kind in 'USO':
+        # a ThrustMode member (or its string value): the index of the member in definition order, as the `nat` kernels report it
+        from AEIC.performance.types import ThrustMode
+
+        x = a.reshape(-1)[0]
+        vals = [m.value for m in ThrustMode]
+        return float(vals.index(getattr(x, 'value', str(x))))
+    return float(a.reshape(-1)[0]) if a.size == 1 else float(v)
 
 
 def sym_scenarios(impl, rng, spec_group):
@@ -482,6 +490,30 @@ def sym_scenarios(impl, rng, spec_group):
                 except Exception:
                     continue
                 yield {'call': builder.calc_starting_mass, 'args': (), 'kwargs': {}, 'self': builder, 'cleanup': lambda b=builder: delattr(b, 'ctx')}
+    elif file == 'emissions/ei/pmvol.py':
+        from AEIC.performance.types import ThrustMode, ThrustModeArray
+
+        if func == 'EI_PMvol_FuelFlow':
+            for m in ThrustMode:
+                yield {'call': impl.pmvol.EI_PMvol_FuelFlow, 'args': (np.array([float(rng.uniform(0.1, 2.0))]), ThrustModeArray(np.array([m.value]))),
+                       'kwargs': {}, 'ns': {'thrustMode': ThrustModeArray(np.array([m.value])), 'ThrustMode': ThrustMode}}
+        else:
+            for t in [7.0, 30.0, 85.0, 100.0, 0.0, 3.0, 120.0] + [float(x) for x in rng.uniform(0.0, 110.0, 40)]:
+                yield {'call': impl.pmvol.EI_PMvol_FOA3, 'args': (np.array([t]), np.array([float(rng.uniform(0.0, 30.0))])), 'kwargs': {}}
+    elif file == 'emissions/utils.py' and func == 'get_thrust_cat_cruise':
+        for i in range(80):
+            cal = _cal(rng)
+            if i % 5 == 0:
+                cal = [cal[2], cal[1], cal[0], cal[3]]       # non-monotone calibration flows
+            ff = float(rng.choice([rng.uniform(0.0, 1.3 * cal[3]), (cal[0] + cal[1]) / 2.0, (cal[1] + cal[2]) / 2.0, cal[0], cal[2]]))
+            yield {'call': impl.eutils.get_thrust_cat_cruise, 'args': (np.array([ff]), impl.tmv(cal)), 'kwargs': {}}
+    elif file == 'emissions/ei/pmnvol.py' and func == 'calculate_PMnvolEI_scope11':
+        et = eval(dict(consts)['engine_type'])
+        for i in range(24):
+            sn = [float(x) for x in rng.uniform(0.5, 60.0, 4)]
+            if i % 4 == 0:
+                sn[int(rng.integers(0, 4))] = float(rng.choice([-1.0, 0.0]))     # invalid smoke numbers: that mode is skipped
+            yield {'call': impl.pmnvol.calculate_PMnvolEI_scope11, 'args': (impl.tmv(sn), et, float(rng.uniform(0.5, 12.0))), 'kwargs': {}}
     elif file == 'emissions/ei/hcco.py':
         # one evaluation point per call (the kernel reads the array code for one element); calibration sets that reach every
         # branch of the clamping rules: ordinary falling HC/CO, equal idle / approach flows (zero slope), rising EI (positive
@@ -627,14 +659,18 @@ def _run_sym(ctx, g, ks, sc, sm, seen):
                 name, kind = (i, 'real') if isinstance(i, str) else i
                 (bs if kind == 'bool' else xs).append(bool(ns[name]) if kind == 'bool' else f2u(_f(ns[name])))
             for text, name in k.cond_inputs.items():
-                bs.append(bool(_resolve(ns, text)))
+                bs.append(bool(np.all(_resolve(ns, text))))
         except Exception as e:
             if k.name in pykern.LAST_STALE:
                 ctx.count('source_tie_stale_unobservable:' + k.name)
                 continue
             ctx.diverge(f'kernel {k.name}', {'kernel': k.name}, f'inputs not observable: {type(e).__name__}: {e}')
             continue
-        _SYM_QUEUE.append((k, {'op': 'kern.eval', 'name': k.name, 'attrs': attrs, 'pts': [{'x': xs, 'b': bs}]}, want, attrs, xs, bs))
+        if pykern.is_vector_kernel(k, g):       # (kernels with a length / array signature live in the vector dispatcher)
+            op = {'op': 'kern.evalv', 'name': k.name, 'attrs': attrs, 'vattrs': {}, 'pts': [{'x': xs, 'b': bs, 'v': [], 'n': []}]}
+        else:
+            op = {'op': 'kern.eval', 'name': k.name, 'attrs': attrs, 'pts': [{'x': xs, 'b': bs}]}
+        _SYM_QUEUE.append((k, op, want, attrs, xs, bs))
     if 'cleanup' in sc:
         sc['cleanup']()
 
@@ -647,7 +683,7 @@ def _flush_sym(ctx, sm, seen):
         return
     outs = ctx.driver.outs([q[1] for q in _SYM_QUEUE])
     for (k, _op, want, attrs, xs, bs), got in zip(_SYM_QUEUE, outs):
-        have = u2f(got[0])
+        have = u2f(got[0][0]) if isinstance(got[0], list) else u2f(got[0])
         seen.add(k.name)
         sm['points'] += 1
         ctx.evaluations += 1
